@@ -220,7 +220,8 @@ unsafe extern "C" fn foreign_reserve<T>(v: *mut VecView<T>, additional: usize) -
     let v = &mut *v;
     let known = arena(|a| {
         a.reserve_calls += 1;
-        a.blocks.get(&(v.data as usize)).map(|r| r.0)
+        // an empty vector of this module may have no buffer at all: {NULL, 0, 0}
+        if v.data.is_null() && v.capacity == 0 { Some(0) } else { a.blocks.get(&(v.data as usize)).map(|r| r.0) }
     });
     match known {
         Some(c) if c == v.capacity => {}
@@ -239,11 +240,13 @@ unsafe extern "C" fn foreign_reserve<T>(v: *mut VecView<T>, additional: usize) -
         return v.capacity;
     }
     let n = arena_alloc::<T>(newcap);
-    std::ptr::copy_nonoverlapping(v.data, n, v.len);
+    if v.len > 0 {
+        std::ptr::copy_nonoverlapping(v.data, n, v.len);
+    }
     let old = v.data;
     v.data = n;
     v.capacity = newcap;
-    if known.is_some() {
+    if known.is_some() && !old.is_null() {
         arena_free(old as *mut u8);
     }
     arena(|a| a.moved += 1);
@@ -251,6 +254,10 @@ unsafe extern "C" fn foreign_reserve<T>(v: *mut VecView<T>, additional: usize) -
 }
 
 unsafe extern "C" fn foreign_drop<T>(data: *mut T, len: usize, capacity: usize) {
+    if data.is_null() && capacity == 0 && len == 0 {
+        arena(|a| a.drop_calls += 1);
+        return;
+    }
     let known = arena(|a| {
         a.drop_calls += 1;
         a.blocks.get(&(data as usize)).map(|r| r.0)
@@ -273,10 +280,13 @@ unsafe extern "C" fn foreign_drop<T>(data: *mut T, len: usize, capacity: usize) 
     arena_free(data as *mut u8);
 }
 
+static NULL_EMPTY: std::sync::atomic::AtomicU32 = std::sync::atomic::AtomicU32::new(0);
+
 fn new_foreign<T: Elem>(items: Vec<T>, spare: usize) -> CVec<T> {
     unsafe {
         let cap = items.len() + spare;
-        let data = arena_alloc::<T>(cap);
+        // every other bufferless vector of the foreign module is the C-natural {NULL, 0, 0}
+        let data = if cap == 0 && NULL_EMPTY.fetch_add(1, Ordering::Relaxed) % 2 == 0 { std::ptr::null_mut() } else { arena_alloc::<T>(cap) };
         let len = items.len();
         for (i, it) in items.into_iter().enumerate() {
             std::ptr::write(data.add(i), it);
@@ -323,7 +333,7 @@ fn check_slot<T: Elem>(i: usize, s: &Slot<T>, when: &str) -> VResult {
     vcheck!(cv.len == v.len() && cv.capacity == v.capacity() && cv.data as *const T == v.as_ptr(), "vec.layout", "fields",
         "{}: C view (data,len,capacity) disagrees with len()/capacity()/as_ptr()", when);
     if s.foreign {
-        let known = arena(|a| a.blocks.get(&(cv.data as usize)).map(|r| r.0));
+        let known = if cv.data.is_null() { Some(0) } else { arena(|a| a.blocks.get(&(cv.data as usize)).map(|r| r.0)) };
         vcheck!(known == Some(cv.capacity), "vec.foreign_books", "buffer", "{}: slot {} buffer/capacity {:?} is not what the foreign module's reserve_fn last returned (cap field={})", when, i, known, cv.capacity);
     } else if std::mem::size_of::<T>() > 0 && cv.capacity > 0 && !cfg!(miri) {
         // a Rust-made buffer must be one tracked block of exactly capacity*size bytes
@@ -610,6 +620,7 @@ fn exec_t<T: Elem>(plan: &Plan, ctx: &mut RunCtx) -> VResult {
     vcheck!(cview::same_size::<CVec<T>, VecView<T>>(), "vec.layout", "size", "CVec no longer has the published 5-word layout");
     let npool = plan.cfg("pool", 2).clamp(1, 4) as usize;
     POLICY.store(plan.cfg("policy", 0).rem_euclid(4) as u64, Ordering::Relaxed);
+    NULL_EMPTY.store(0, Ordering::Relaxed);
     arena(|a| {
         a.blocks.clear();
         a.errors.clear();
